@@ -1006,16 +1006,8 @@ impl Ready<Set> for SetBuilder<WithInput, WithInput> {
             .schema()
             .iter()
             .zip(self.right.0.schema().iter())
-            .map(|(left_field, right_field)| {
-                if left_field.name() == right_field.name() {
-                    left_field.name().to_string()
-                } else {
-                    namer::name_from_content(
-                        FIELD,
-                        &(&self.left.0, &self.right.0, left_field, right_field),
-                    )
-                }
-            })
+            // As in SQL, the columns of a set operation are named after the columns of its left input
+            .map(|(left_field, _right_field)| left_field.name().to_string())
             .collect();
         let operator = self.operator.unwrap_or(SetOperator::Union);
         let quantifier = self.quantifier.unwrap_or(SetQuantifier::None);
